@@ -50,9 +50,11 @@ def _is_any(e):
     return isinstance(e, list) and len(e) == 2 and e[1] == -1
 
 
-def _leaf_ok(kind, x, e):
-    if _is_any(e) or (kind == "ssqrt" and _is_any(e[1])):
+def _leaf_ok(kind, x, e, scale=None):
+    if _is_any(e) or (kind in ("ssqrt", "tail_normal") and _is_any(e[1])):
         return True
+    if scale is not None and isinstance(x, (int, float)) and not isinstance(x, bool):
+        x = x * scale[1] / scale[0]
     if kind == "num":
         return close_rat(x, e[0], e[1])
     if kind == "sqrt":
@@ -74,19 +76,30 @@ def _leaf_ok(kind, x, e):
         if n == 0:
             return abs(x) <= 1e-12
         return sx == s and close_rat(x * x, n, d)
+    if kind == "tail_normal":
+        # e = [sign, z2]; expected p-value 2(1 - Phi(|z|)) = erfc(|z| / sqrt 2)
+        n, d = e[1]
+        if d == 0:
+            if n == 0:
+                return isinstance(x, float) and math.isnan(x)
+            return isinstance(x, (int, float)) and abs(x) <= 1e-12
+        if not isinstance(x, (int, float)) or (isinstance(x, float) and math.isnan(x)):
+            return False
+        p = math.erfc(math.sqrt(n / d / 2.0))
+        return 0.0 <= x <= 1.0 and abs(x - p) <= 1e-9
     raise ValueError(kind)
 
 
-def _walk(kind, depth, x, e, path, errs):
+def _walk(kind, depth, x, e, path, errs, scale=None):
     if depth == 0:
-        if not _leaf_ok(kind, x, e):
+        if not _leaf_ok(kind, x, e, scale):
             errs.append((tuple(path), x, e))
         return
     if not isinstance(x, list) or len(x) != len(e):
         errs.append((tuple(path), "shape %s" % (_shape(x),), "shape len %d" % len(e)))
         return
     for i, (xi, ei) in enumerate(zip(x, e)):
-        _walk(kind, depth - 1, xi, ei, path + [i], errs)
+        _walk(kind, depth - 1, xi, ei, path + [i], errs, scale)
         if len(errs) > 5:
             return
 
@@ -118,5 +131,8 @@ def compare(observed, expected):
     if obs is None:
         errs.append(((), None, "value of kind %s" % kind))
         return errs
-    _walk(kind, nd, obs, v, [], errs)
+    scale = expected.get("scale")
+    if scale is not None and scale[0] == scale[1]:
+        scale = None
+    _walk(kind, nd, obs, v, [], errs, scale)
     return errs
